@@ -279,6 +279,12 @@ def _grid_job(job):
                 np.random.random(3)
                 if step == 1:
                     safe(call_generate, dict(c, seed=seed + 1), inst)
+                if step == 0:
+                    # the same object generates a data set over ANOTHER domain of the same size in between (shifted bounds, other value list)
+                    other = dict(c, low=c.get('low', 0) + 7, high=c.get('high', 1000) + 7)
+                    if other.get('structure'):
+                        other['structure'] = [[e[0], ([v + 13 for v in e[1]] if isinstance(e[1], list) and not isinstance(e[1][0], list) else e[1])] for e in other['structure']]
+                    safe(call_generate, other, inst)
             if any(x is None or not np.array_equal(x, X) for x in seq):
                 st.violation({'kind': 'grid', 'cfg': c, 'same_instance': True}, f'repeated generate_data calls on one generator instance with the same seed and arguments differ from the first data set ({c})',
                              {'kind': 'not_reproducible_same_instance'})
